@@ -118,6 +118,8 @@ func NewSrvWork(x *Ctx, flushop bool) *SrvWork {
 	c := x.C
 	w := &SrvWork{x: x, byKey: map[string]*wReq{}, msize: uint32(c.cfg("msize")), dotu: c.cfg("dotu") != 0}
 	fs := NewScriptFS(x)
+	fs.AutoRelease = c.cfg("autorel") != 0
+	fs.FlushAlways = c.cfg("flushalways") != 0
 	w.fs = fs
 	nconn := int(c.cfg("nconn"))
 	if nconn < 1 {
